@@ -1844,10 +1844,13 @@ fn scenario_connections(sc: &str) -> Result<Violations, String> {
     if sc == "busy" { return scenario_connections_busy(); }
     if let Some(k) = sc.strip_prefix("restored|") { return scenario_connections_restored(k.parse().map_err(|_| "bad count")?); }
     // sc = events separated by '.':  <session a|b|c><op>  ops: d (use-db d tok) e (use-db e etok) u (use-db d usr ut) x (use-db d wrong) l (disconnect) w (set $connections 9)
+    // a leading `S:` makes the node a SECONDARY after its data is set up: sessions are counted and the mirror key is written on every node, whatever its role
+    let (sc, secondary) = match sc.strip_prefix("S:") { Some(rest) => (rest, true), None => (sc, false) };
     let w = mk_world(0);
     {   let (mut admin, mut arx) = Client::new_empty_and_receiver();
         for c in ["auth u p", "create-db e etok"] { run_cmd(&w, &mut admin, &mut arx, c); }
         std::mem::forget(arx); }
+    if secondary { w.dbs.node_state.swap(ClusterRole::Secoundary as usize, std::sync::atomic::Ordering::Relaxed); }
     let mut v: Violations = vec![];
     // sessions opened while the world was built (the administrator that created the data) are still counted: measure the baseline
     let base: Vec<usize> = { let m = w.dbs.map.read().unwrap(); ["d", "e"].iter().map(|n| m.get(*n).unwrap().connections_count()).collect() };
@@ -1903,6 +1906,7 @@ fn all_connections_scenarios() -> Vec<String> {
     rec(&evs, &mut vec![], if deep() { 5 } else { 4 }, &mut out);
     out.push("busy".into());
     for k in ["restored|0", "restored|1", "restored|3"] { out.push(k.to_string()); }
+    for k in ["S:ad", "S:ad.al", "S:ad.bd.al", "S:ad.ae.al", "S:au.bd.bl.al"] { out.push(k.to_string()); }
     out
 }
 
